@@ -328,6 +328,178 @@ type CmpInfo struct {
 
 // NormCond decomposes a guard condition into a comparison with polarity applied.
 func NormCond(g Guard) (CmpInfo, bool) {
+	ci, ok := normCond0(g)
+	if ok && (ci.Op == "==" || ci.Op == "!=") && ci.X != nil && ci.Y != nil {
+		ci.X, ci.Y = eqViews(ci.X, ci.Y)
+	}
+	return ci, ok
+}
+
+// eqViews: an equality of two injective views of values is the equality of the values: bytes.Equal(a.Bytes(), b.Bytes()),
+// string(a) == string(b), a.String() == b.String() and a.Equals(b) all compare a with b. Conversions are dropped on both
+// sides, Bytes() on either side, String()/Hex() only when both sides carry it.
+func eqViews(x, y ssa.Value) (ssa.Value, ssa.Value) {
+	for i := 0; i < 4; i++ {
+		x, y = stripConv(x), stripConv(y)
+		cx, okx := x.(*ssa.Call)
+		cy, oky := y.(*ssa.Call)
+		nx, ny := "", ""
+		if okx && len(callArgs(cx)) == 1 {
+			nx = callName(cx)
+		}
+		if oky && len(callArgs(cy)) == 1 {
+			ny = callName(cy)
+		}
+		switch {
+		case nx == "Bytes" && ny == "Bytes", (nx == "String" || nx == "Hex") && nx == ny:
+			x, y = callArgs(cx)[0], callArgs(cy)[0]
+		case nx == "Bytes":
+			x = callArgs(cx)[0]
+		case ny == "Bytes":
+			y = callArgs(cy)[0]
+		default:
+			return x, y
+		}
+	}
+	return x, y
+}
+
+// RelOf reads a guard as an order / equality relation `a op b` between two values, whatever idiom spells it: a.LT(b),
+// b.GT(a) (returned as written: op relates a to b), a.Cmp(b) <op> 0 / == 1 / == -1, a.Sign() <op> 0 (b is nil: zero), plain
+// binary comparisons. Rules match it in either orientation with Rel.Says.
+type Rel struct {
+	Op   string
+	A, B ssa.Value // B == nil means the constant zero (Sign forms)
+}
+
+func mirrorOp(op string) string {
+	switch op {
+	case "<":
+		return ">"
+	case "<=":
+		return ">="
+	case ">":
+		return "<"
+	case ">=":
+		return "<="
+	}
+	return op
+}
+
+func relImplies(have, want string) bool {
+	if have == want {
+		return true
+	}
+	switch want {
+	case ">=":
+		return have == ">" || have == "=="
+	case "<=":
+		return have == "<" || have == "=="
+	case "!=":
+		return have == "<" || have == ">"
+	}
+	return false
+}
+
+func RelOf(g Guard) (Rel, bool) {
+	ci, ok := NormCond(g)
+	if !ok {
+		return Rel{}, false
+	}
+	switch ci.Op {
+	case "==", "!=", "<", "<=", ">", ">=":
+	default:
+		return Rel{}, false
+	}
+	if ci.Call != nil {
+		a := callArgs(ci.Call)
+		if len(a) < 2 {
+			return Rel{}, false
+		}
+		return Rel{Op: ci.Op, A: a[0], B: a[1]}, true
+	}
+	// three-way comparison against a constant
+	x, y, op := ci.X, ci.Y, ci.Op
+	if _, isC := constInt(x); isC {
+		x, y, op = y, x, mirrorOp(op)
+	}
+	if c, ok := stripConv(x).(*ssa.Call); ok {
+		if k, isK := constInt(y); isK && (callName(c) == "Cmp" || callName(c) == "Sign") {
+			// sign(a-b) op k  ->  a op' b
+			rel := ""
+			switch {
+			case k == 0:
+				rel = op
+			case k == 1 && (op == "==" || op == ">="):
+				rel = ">"
+			case k == 1 && (op == "!=" || op == "<"):
+				rel = "<="
+			case k == -1 && (op == "==" || op == "<="):
+				rel = "<"
+			case k == -1 && (op == "!=" || op == ">"):
+				rel = ">="
+			}
+			if rel != "" {
+				a := callArgs(c)
+				if callName(c) == "Cmp" && len(a) == 2 {
+					if isZeroNumber(a[1]) {
+						return Rel{Op: rel, A: a[0]}, true
+					}
+					return Rel{Op: rel, A: a[0], B: a[1]}, true
+				}
+				if callName(c) == "Sign" && len(a) == 1 {
+					return Rel{Op: rel, A: a[0]}, true
+				}
+			}
+		}
+	}
+	return Rel{Op: ci.Op, A: ci.X, B: ci.Y}, true
+}
+
+// isZeroNumber: big.NewInt(0), new(big.Int), math.ZeroInt(), constant 0.
+func isZeroNumber(v ssa.Value) bool {
+	v = stripConv(v)
+	if k, ok := constInt(v); ok {
+		return k == 0
+	}
+	if c, ok := v.(*ssa.Call); ok {
+		switch callName(c) {
+		case "NewInt":
+			a := callArgs(c)
+			if len(a) == 1 {
+				k, ok := constInt(a[0])
+				return ok && k == 0
+			}
+		case "ZeroInt", "LegacyZeroDec", "ZeroDec", "ZeroUint":
+			return true
+		}
+	}
+	if a, ok := v.(*ssa.Alloc); ok {
+		// new(big.Int)
+		return strings.HasSuffix(a.Type().String(), "big.Int")
+	}
+	return false
+}
+
+// Says: the relation establishes `x want y` for values recognised by isX / isY (either orientation; a stronger relation
+// counts). isY == nil stands for the constant zero.
+func (r Rel) Says(want string, isX, isY func(ssa.Value) bool) bool {
+	matchY := func(v ssa.Value) bool {
+		if isY == nil {
+			return v == nil || isZeroNumber(v)
+		}
+		return v != nil && isY(v)
+	}
+	if r.A != nil && isX(r.A) && matchY(r.B) && relImplies(r.Op, want) {
+		return true
+	}
+	if r.B != nil && isX(r.B) && isY != nil && r.A != nil && isY(r.A) && relImplies(mirrorOp(r.Op), want) {
+		return true
+	}
+	return false
+}
+
+func normCond0(g Guard) (CmpInfo, bool) {
 	v, pol := g.Cond, g.Pol
 	for {
 		if u, ok := v.(*ssa.UnOp); ok && u.Op == token.NOT {
